@@ -14,3 +14,5 @@ import Grenad.Model.Varint
 import Grenad.Model.Writer
 import Grenad.Model.WriterIO
 import Grenad.Model.EntriesBytes
+import Grenad.Model.MetaIO
+import Grenad.Model.BinSearch
